@@ -96,9 +96,10 @@ def check(pc, goal, timeout_ms=10000, portfolio=True, want_model=False):
 
     A conjunctive goal is split: each conjunct is a separate, smaller query."""
     t0 = time.time()
-    if z3.is_and(goal) and goal.num_args() > 1:
+    parts = list(goal.children()) if z3.is_and(goal) and goal.num_args() > 1 else [goal]
+    if len(parts) > 1:
         backends = set()
-        for g in goal.children():
+        for g in parts:
             st, be, _t, m = check(pc, g, timeout_ms, portfolio, want_model)
             if st != "unsat":
                 return st, be, time.time() - t0, m
@@ -137,5 +138,18 @@ def check(pc, goal, timeout_ms=10000, portfolio=True, want_model=False):
                 return "unsat", backend, time.time() - t0, None
             if verdict == "sat":
                 return "sat", backend, time.time() - t0, None
+    # z3's verdict on the quantified queries varies from run to run (same input: 1 s or `unknown`); `unsat` from any
+    # attempt is a proof, so try again with other random seeds before giving up
+    for seed in (1, 2):
+        for hyps, tag in ((ground, "(qf-subset)"), (pc, "")):
+            if tag and len(ground) == len(pc):
+                continue
+            sr = z3.Solver()
+            sr.set("timeout", min(timeout_ms, IN_PROCESS_MS))
+            sr.set("random_seed", seed)
+            sr.add(*hyps)
+            sr.add(z3.Not(goal))
+            if sr.check() == z3.unsat:
+                return "unsat", "z3py-%s%s(seed %d)" % (z3.get_version_string(), tag, seed), time.time() - t0, None
     return "unknown", None, time.time() - t0, None
 
